@@ -4,7 +4,7 @@ CONSTANTS
   StrVals = {1}
   VsVals = {1, 2}
   RecVals = {1}
-  BulkSizes = {127, 128}
+  BulkSizes = {127, 140}
   MaxSolv = 2
   MaxUnion = 1
   MaxVs = 2
